@@ -41,7 +41,7 @@ ASSUMPTIONS = [
 
 
 def floors(tier):
-    return {"hp-keyword": 100, "as-text": 20, "int-for-float": 300, "rel=B": 1500, "rel=A": 1500, "bf=0": 1000, "bf=1": 1000, "scaled": 1500,
+    return {"count-at-cap": 60, "hp-keyword": 100, "as-text": 20, "int-for-float": 300, "rel=B": 1500, "rel=A": 1500, "bf=0": 1000, "bf=1": 1000, "scaled": 1500,
             "sweep": 5000, "count>0": 300, "kwargs-permuted": 300, "single-attribute": 5000}
 
 
@@ -423,6 +423,21 @@ def run_shard(spec, ctx, acc):
                                     max_payload=1200 if tier == "quick" else 8000, big_counts=False)
             inst = inst.filter(not_nan_floats)
             base = {"kind": "kw", "mode": t.mode, "clsid": t.clsid, "defname": t.defname}
+            # counted groups as large as the count field allows, one-bit flags all set / all clear
+            if G.count_names(t.defn) and not has_hp(t.defn):
+                for on in (True, False):
+                    for salt in range(1 if tier == "quick" else 4):
+                        try:
+                            cnodes = layout.cap_instance(t.defn, t.mode, t.clsid, forced=forced, flags_on=on, salt=salt,
+                                                         max_payload=6000 if tier == "quick" else 60000)
+                        except Exception:  # noqa - the generator's limits are not the library's
+                            cnodes = None
+                        if cnodes is None or not not_nan_floats(cnodes):
+                            continue
+                        case = dict(base, bf=1, nodes=cnodes, subset=None)
+                        o = core.checked(check, case)
+                        o.classes = list(o.classes) + ["count-at-cap"]
+                        core.handle(acc, o, case, known)
             # keywords named after the definition's own leaves (incl. _HP parts), model values
             lw = inst.map(lambda nodes: dict(base, kind="leafwise", nodes=nodes))
             if has_hp(t.defn):
